@@ -160,9 +160,10 @@ def _get_paired_crop(
     """
     assert prediction_arr.shape == reference_arr.shape
 
-    combined = prediction_arr + reference_arr
-    if combined.sum() == 0:
-        combined += 1
+    # do not add the label arrays: the sum can wrap around to zero in narrow dtypes
+    combined = np.logical_or(prediction_arr != 0, reference_arr != 0)
+    if not combined.any():
+        combined[...] = True
     return _get_bbox_nd(combined, px_dist=px_pad)
 
 
